@@ -668,6 +668,123 @@ Section AsmLemmas.
   Qed.
 End AsmLemmas.
 
+(* ---------- modules related fragment-wise (C18: same letters, another case) ----- *)
+
+Section RelAsm.
+  Context {O : Type} (oeq : O -> O -> bool) (orc : O -> O).
+  Context (R : list letter -> list letter -> Prop).
+  Context (R_nil : R [] []) (R_app : forall a b c d, R a b -> R c d -> R (a ++ c) (b ++ d)).
+
+  Definition rel_mod (a b : @tmod O) : Prop :=
+    mid a = mid b /\ mup a = mup b /\ mdown a = mdown b /\ R (mfrag a) (mfrag b).
+
+  Definition rel_out (x y : @outcome O) : Prop :=
+    match x, y with
+    | Product w u r, Product w' u' r' => R w w' /\ u = u' /\ r = r'
+    | EInvalid, EInvalid => True
+    | EDuplicate a b, EDuplicate a' b' => a = a' /\ b = b'
+    | EMissing o, EMissing o' => o = o'
+    | EInternal, EInternal => True
+    | _, _ => False
+    end.
+
+  Lemma rel_lookup o mp mp' : Forall2 rel_mod mp mp' ->
+    match lookup oeq o mp, lookup oeq o mp' with
+    | Some a, Some b => rel_mod a b
+    | None, None => True
+    | _, _ => False
+    end.
+  Proof.
+    induction 1 as [|a b mp mp' Hab H IH]; cbn; [exact I|].
+    destruct Hab as (Hi & Hu & Hd & Hf). rewrite <- Hu.
+    destruct (oeq (mup a) o); [repeat split; auto|exact IH].
+  Qed.
+
+  Lemma rel_build_map ms ms' : Forall2 rel_mod ms ms' -> forall mp mp', Forall2 rel_mod mp mp' ->
+    match build_map oeq ms mp, build_map oeq ms' mp' with
+    | inl a, inl b => Forall2 rel_mod a b
+    | inr p, inr q => p = q
+    | _, _ => False
+    end.
+  Proof.
+    induction 1 as [|a b ms ms' Hab H IH]; intros mp mp' Hmp; cbn; [exact Hmp|].
+    pose proof (rel_lookup (mup a) mp mp' Hmp) as Hl.
+    destruct Hab as (Hi & Hu & Hd & Hf). rewrite <- Hu.
+    destruct (lookup oeq (mup a) mp) as [x|], (lookup oeq (mup a) mp') as [y|]; try contradiction.
+    - destruct Hl as (Hxi & _). now rewrite Hxi, Hi.
+    - apply IH. apply Forall2_app; [exact Hmp|]. constructor; [|constructor]. repeat split; auto.
+  Qed.
+
+  Lemma rel_rc_clash keys keys' : Forall2 rel_mod keys keys' -> forall mp mp', Forall2 rel_mod mp mp' ->
+    rc_clash oeq orc keys mp = rc_clash oeq orc keys' mp'.
+  Proof.
+    induction 1 as [|a b keys keys' Hab H IH]; intros mp mp' Hmp; cbn; [reflexivity|].
+    pose proof (rel_lookup (orc (mup a)) mp mp' Hmp) as Hl.
+    destruct Hab as (Hi & Hu & Hd & Hf). rewrite <- Hu.
+    destruct (lookup oeq (orc (mup a)) mp) as [x|], (lookup oeq (orc (mup a)) mp') as [y|]; try contradiction.
+    - destruct Hl as (Hxi & _). rewrite <- Hxi, <- Hi. destruct (Nat.eqb (mid x) (mid a)); [now apply IH|reflexivity].
+    - now apply IH.
+  Qed.
+
+  Lemma rel_pop o mp mp' : Forall2 rel_mod mp mp' ->
+    match pop oeq o mp, pop oeq o mp' with
+    | Some (a, r), Some (b, r') => rel_mod a b /\ Forall2 rel_mod r r'
+    | None, None => True
+    | _, _ => False
+    end.
+  Proof.
+    induction 1 as [|a b mp mp' Hab H IH]; cbn; [exact I|].
+    pose proof Hab as (Hi & Hu & Hd & Hf). rewrite <- Hu.
+    destruct (oeq (mup a) o); [split; assumption|].
+    destruct (pop oeq o mp) as [[x r]|], (pop oeq o mp') as [[y r']|]; try contradiction; [|exact I].
+    destruct IH as [Hxy Hr]. split; [exact Hxy|]. now constructor.
+  Qed.
+
+  Lemma rel_walk fuel b : forall a mp mp' used used', Forall2 rel_mod mp mp' -> Forall2 rel_mod used used' ->
+    match walk oeq fuel b a mp used, walk oeq fuel b a mp' used' with
+    | WChain u r, WChain u' r' => Forall2 rel_mod u u' /\ Forall2 rel_mod r r'
+    | WMissing o, WMissing o' => o = o'
+    | WFuel, WFuel => True
+    | _, _ => False
+    end.
+  Proof.
+    induction fuel as [|f IH]; intros a mp mp' used used' Hmp Hu; cbn.
+    - destruct (oeq a b); [split; assumption|exact I].
+    - destruct (oeq a b); [split; assumption|].
+      pose proof (rel_pop a mp mp' Hmp) as Hp.
+      destruct (pop oeq a mp) as [[x r]|], (pop oeq a mp') as [[y r']|]; try contradiction; [|reflexivity].
+      destruct Hp as [Hxy Hr]. pose proof Hxy as (_ & _ & Hd & _). rewrite <- Hd.
+      apply IH; [exact Hr|]. apply Forall2_app; [exact Hu|]. constructor; [exact Hxy|constructor].
+  Qed.
+
+  Lemma rel_concat u u' : Forall2 rel_mod u u' -> R (concat (map mfrag u)) (concat (map mfrag u')) /\ map mid u = map mid u'.
+  Proof.
+    induction 1 as [|a b u u' Hab H IH]; cbn; [auto|].
+    destruct Hab as (Hi & _ & _ & Hf). destruct IH as [IH1 IH2]. split; [now apply R_app|now rewrite Hi, IH2].
+  Qed.
+
+  Theorem rel_assemble (v v' : @tvec O) ms ms' :
+    vup v = vup v' -> vdown v = vdown v' -> R (vfrag v) (vfrag v') -> Forall2 rel_mod ms ms' ->
+    rel_out (assemble oeq orc v ms) (assemble oeq orc v' ms').
+  Proof.
+    intros Hu Hd Hf Hms. unfold assemble, assemble_with. rewrite <- Hu, <- Hd.
+    destruct (oeq (vup v) (vdown v)); [exact I|].
+    pose proof (rel_build_map ms ms' Hms [] [] (Forall2_nil _)) as Hb.
+    destruct (build_map oeq ms []) as [mp|[a b]], (build_map oeq ms' []) as [mp'|[a' b']]; try contradiction.
+    - rewrite (rel_rc_clash mp mp' Hb mp mp' Hb).
+      destruct (rc_clash oeq orc mp' mp') as [[a b]|]; [split; reflexivity|].
+      assert (Hl : length ms = length ms') by (clear -Hms; induction Hms; cbn; congruence). rewrite <- Hl.
+      pose proof (rel_walk (S (length ms)) (vup v) (vdown v) mp mp' [] [] Hb (Forall2_nil _)) as Hw.
+      destruct (walk oeq (S (length ms)) (vup v) (vdown v) mp []) as [u r|o|],
+               (walk oeq (S (length ms)) (vup v) (vdown v) mp' []) as [u' r'|o'|]; try contradiction; cbn.
+      + destruct Hw as [Hu' Hr]. destruct (rel_concat _ _ Hu') as [Hc Hi]. destruct (rel_concat _ _ Hr) as [_ Hi'].
+        split; [now apply R_app|auto].
+      + exact Hw.
+      + exact I.
+    - inversion Hb. split; reflexivity.
+  Qed.
+End RelAsm.
+
 (* ---------- the DNA instance ------------------------------------------------- *)
 
 Lemma code_eqb_spec a b : code_eqb a b = true <-> a = b.
